@@ -14,7 +14,7 @@ META = dict(
          "retry window and Close at intermediate steps are executed on the real producer; TLC validates every recorded trace: each "
          "submitted message gets exactly one terminal event, no event for anything not submitted, Close returns and both channels close.",
     note="bounded model; real executions are a finite sample of schedules (steered by broker holds and hook gates); simulated "
-         "cluster + driver trusted; SyncProducer covered through the same pipeline only",
+         "cluster + driver trusted; SyncProducer: SendMessage from concurrent goroutines and SendMessages batches over the fault kinds (return values validated as outcomes)",
     design_ref="6/C01",
 )
 
@@ -23,6 +23,6 @@ def run(ctx):
     n = 80 if ctx.tier == "quick" else 1500
     fams = [("gen", "gen.p1", n), ("gen", "gen.p2", n), ("gen", "gen.p2b1", n), ("gen", "gen.idem", n),
             lambda: pc.family_faults(False, ctx.seed), lambda: pc.family_faults(True, ctx.seed),
-            lambda: pc.family_gates(False), lambda: pc.family_gates(True), pc.family_retry0, lambda: pc.family_overflow(False), lambda: pc.family_overflow(True)]
+            lambda: pc.family_gates(False), lambda: pc.family_gates(True), pc.family_retry0, lambda: pc.family_sync(False), lambda: pc.family_sync(True), lambda: pc.family_overflow(False), lambda: pc.family_overflow(True)]
     mc = ["MCProducer.small.cfg", "MCProducer.idem.cfg"] if ctx.tier == "quick" else ["MCProducer.quick.cfg", "MCProducer.idem.cfg", "MCProducer.p2.cfg"]
     return pc.check(ctx, "C01", fams, mc, close_stride=12 if ctx.tier == "quick" else 1)
